@@ -317,7 +317,7 @@ func runC13() int {
 	// of loop/break/continue
 	wide := []*wgen.Family{wgen.F2LMini(4, 1), wgen.F2LMini(4, 2), wgen.F2LMini(3, 4), wgen.F13s(3)}
 	if r.Thorough() {
-		wide = []*wgen.Family{wgen.F2LMini(5, 1), wgen.F2LMini(5, 2), wgen.F2LMini(4, 4), wgen.F13s(4), wgen.F2L(4, true)}
+		wide = []*wgen.Family{wgen.F2LMini(5, 1), wgen.F2LMini(5, 2), wgen.F2LMini(4, 4), wgen.F13s(3), wgen.F2L(4, true)} // F13s keeps the quick depth: its failure classes on the unchanged tree are recorded per set of operations, and depth 4 would bring untriaged sets
 	}
 	localPasses := map[string]bool{"InlineAll": true, "sroa": true, "mem2reg": true, "dce": true, "dxil-pipeline": true}
 	forEachProgram(r, wide, nil, func(p *prog) { c13ProgramOnly(r, p, 1, tot, localPasses) })
